@@ -26,7 +26,8 @@ def main():
     rc, out = sh("git diff -- src > patch.diff; git diff --stat -- src | tail -1", cwd=d)
     report["diffstat"] = out.strip()
     rc, out = sh("/venv/bin/python -m pytest -q -p no:cacheprovider 2>&1 | tail -1", cwd=d, env=env)
-    report["tests_with_change"] = out.strip()
+    rc_t, _ = sh("/venv/bin/python -m pytest -q -p no:cacheprovider -x", cwd=d, env=env)
+    report["tests_with_change"] = "passed" if rc_t == 0 else "FAILED: " + out.strip()
     rc_demo, out = sh(f"/venv/bin/python {d}/demo.py", cwd=d, env=env)
     report["demo_with_change_rc"] = rc_demo
     report["demo_with_change_out"] = out.strip()[-300:]
@@ -34,11 +35,11 @@ def main():
     try:
         rc_clean, out = sh(f"/venv/bin/python {d}/demo.py", cwd=d, env=env)
         report["demo_without_change_rc"] = rc_clean
-        rc, out = sh("/venv/bin/python -m pytest -q -p no:cacheprovider 2>&1 | tail -1", cwd=d, env=env)
-        report["tests_without_change"] = out.strip()
+        rc_t2, out = sh("/venv/bin/python -m pytest -q -p no:cacheprovider -x 2>&1 | tail -1", cwd=d, env=env)
+        report["tests_without_change"] = "passed" if rc_t2 == 0 else "FAILED: " + out.strip()
     finally:
         sh("git stash pop", cwd=d)
-    ok = ("passed" in report["tests_with_change"] and "failed" not in report["tests_with_change"] and rc_demo != 0 and report["demo_without_change_rc"] == 0)
+    ok = (report["tests_with_change"] == "passed" and rc_demo != 0 and report["demo_without_change_rc"] == 0)
     report["confirmed"] = ok
     caught = {}
     cenv = dict(os.environ, VERIF_REPO=str(d))
@@ -61,7 +62,8 @@ def main():
     meta["verification"] = report
     meta["caught_by"] = sorted(p for p, c in caught.items() if c["exit"] == 1)
     (dest / "meta.json").write_text(json.dumps(meta, indent=1))
-    print(json.dumps(report, indent=1))
+    short = {"id": sid, "confirmed": ok, "caught_by": meta["caught_by"], "checks": {p: (c["exit"], c["lines"][:1]) for p, c in caught.items()}}
+    print(json.dumps(short, indent=1))
     return 0
 
 
